@@ -279,12 +279,15 @@ def flow_layer(events, cid, info, vc, hook_types):
                 continue
             role, chal, allowed = (list(hook_types.get(e["hook"], ("other", None, False))) + [False])[:3]
             kv = e.get("kv") or {}
+            ended_well = e.get("exit") == 0 and not e.get("signal")      # the recorder kills itself right after this record when told to
+            if role != "postop" and not ended_well and not allowed:
+                out.append({"e": "HookFailed", "hook": e["hook"]})
             if role in ("chal", "clean"):
                 out.append({"e": "ChalHook", "clean": role == "clean", "chal": kv.get("challenge", "none"), "htype": chal,
                             "identifier": kv.get("identifier", "none"), "file_name": nz(kv.get("file_name")),
                             "proof": nz(kv.get("proof")), "raw_proof": nz(kv.get("raw_proof")),
                             "tls_name": nz(kv.get("identifier_tls_alpn")) if chal == "tls-alpn-01" else "none",
-                            "is_clean_hook": kv.get("is_clean_hook", "none"), "ok": e.get("exit") == 0 or bool(allowed)})
+                            "is_clean_hook": kv.get("is_clean_hook", "none"), "ok": ended_well or bool(allowed)})
             elif role == "postop":
                 files = {f["path"]: f for f in e.get("files_first") or e.get("files") or []}
                 kf = files.get(kv.get("private_key_path"))
